@@ -1,6 +1,6 @@
 //! C01-C04: the semantics of every back-end against the definitions, on complete families of ADFs.
 
-use crate::bddx::conv;
+use crate::bddx::conv as conv_raw;
 use crate::oracle::*;
 use crate::report::*;
 use crate::src_adf::*;
@@ -23,6 +23,26 @@ pub struct Stats {
 }
 
 pub type Found = Vec<(String, String)>;
+
+thread_local! {
+    /// variable index -> declaration index of the case being judged (None: identity)
+    static VARMAP: std::cell::RefCell<Option<Vec<usize>>> = const { std::cell::RefCell::new(None) };
+}
+
+/// reads an interpretation (indexed by variable) in declaration order
+fn conv(m: &[Term]) -> Interp {
+    let c = conv_raw(m);
+    VARMAP.with(|vm| match &*vm.borrow() {
+        Some(map) if map.len() == c.len() => {
+            let mut v = vec![U; c.len()];
+            for (var, d) in map.iter().enumerate() {
+                v[*d] = c[var];
+            }
+            v
+        }
+        _ => c,
+    })
+}
 
 fn multiset(ms: &[Vec<Term>]) -> Vec<Interp> {
     let mut v: Vec<Interp> = ms.iter().map(|m| conv(m)).collect();
@@ -96,6 +116,16 @@ pub struct Objs<'a> {
 
 /// one ADF, one property
 pub fn sem_case(prop: &str, text: &str, tts: &[TT], out: &mut Found, st: &mut Stats) {
+    sem_case_p(prop, text, tts, 0, &crate::fam::names(tts.len()), out, st)
+}
+
+/// `sorting` is applied after parsing; `labels` are the labels in declaration order (index = position in `tts`)
+pub fn sem_case_p(prop: &str, text: &str, tts: &[TT], sorting: usize, labels: &[String], out: &mut Found, st: &mut Stats) {
+    sem_case_inner(prop, text, tts, sorting, labels, out, st);
+    VARMAP.with(|vm| *vm.borrow_mut() = None);
+}
+
+fn sem_case_inner(prop: &str, text: &str, tts: &[TT], sorting: usize, labels: &[String], out: &mut Found, st: &mut Stats) {
     let n = tts.len();
     st.cases += 1;
     let parser = AdfParser::default();
@@ -103,6 +133,25 @@ pub fn sem_case(prop: &str, text: &str, tts: &[TT], out: &mut Found, st: &mut St
     if parsed != Ok(true) {
         out.push(("parse".into(), format!("generated well-formed input was not accepted: {:?}", parsed)));
         return;
+    }
+    match sorting {
+        1 => {
+            parser.varsort_lexi();
+        }
+        2 => {
+            parser.varsort_alphanum();
+        }
+        _ => {}
+    }
+    // variable order of the objects = order of the parser's name list
+    let names_now = parser.var_container().names().read().unwrap().clone();
+    let map: Option<Vec<usize>> = names_now.iter().map(|l| labels.iter().position(|x| x == l)).collect();
+    match map {
+        Some(m) if m.len() == n => VARMAP.with(|vm| *vm.borrow_mut() = Some(m)),
+        _ => {
+            out.push(("labels".into(), format!("the statements of the parsed input are {:?}, declared were {:?}", names_now, labels)));
+            return;
+        }
     }
     match prop {
         "C01" => {
@@ -317,9 +366,9 @@ pub fn run_sem(run: &Run) {
             |st, k| {
                 let c = src.get(k);
                 let mut out = vec![];
-                sem_case(&prop, &c.text, &c.tts, &mut out, st);
+                sem_case_p(&prop, &c.text, &c.tts, c.sorting, &c.labels, &mut out, st);
                 for (kind, msg) in out {
-                    run.violation(&kind, format!("{} on {}", msg, c.text), src.describe(k));
+                    run.violation(&kind, format!("{} on {}{}", msg, c.text, ["", " (varsort_lexi)", " (varsort_alphanum)"][c.sorting]), src.describe(k));
                 }
             },
             &|k| src.describe(k),
@@ -349,6 +398,10 @@ pub fn replay_sem(prop: &str, case: &Value) -> Found {
         .unwrap_or_default();
     let mut out = vec![];
     let mut st = Stats::default();
-    sem_case(prop, &text, &tts, &mut out, &mut st);
+    let labels: Vec<String> = case["labels"]
+        .as_array()
+        .map(|a| a.iter().map(|x| x.as_str().unwrap_or("").to_string()).collect())
+        .unwrap_or_else(|| crate::fam::names(tts.len()));
+    sem_case_p(prop, &text, &tts, case["sorting"].as_u64().unwrap_or(0) as usize, &labels, &mut out, &mut st);
     out
 }
